@@ -91,23 +91,50 @@ impl RangeKeeper {
     }
 }
 
+/// A single edit that replaces the whole document (no edit when nothing changes)
+fn replace_document(old_text: &str, new_text: &str) -> Vec<TextEdit> {
+    if old_text == new_text {
+        return vec![];
+    }
+    let lf_only = old_text.replace("\r\n", "\n").replace('\r', "\n");
+    vec![TextEdit {
+        range: RangeKeeper::new().to_range(&lf_only),
+        new_text: new_text.to_string(),
+    }]
+}
+
+/// Do the chunks, put together again, give exactly the old and the new text?
+fn is_partition(chunks: &[Chunk], old_text: &str, new_text: &str) -> bool {
+    let mut old = String::new();
+    let mut new = String::new();
+    for chunk in chunks {
+        match chunk {
+            Chunk::Equal(str) => {
+                old.push_str(str);
+                new.push_str(str);
+            }
+            Chunk::Delete(str) => old.push_str(str),
+            Chunk::Insert(str) => new.push_str(str),
+        }
+    }
+    old == old_text && new == new_text
+}
+
 fn get_text_edits(old_text: &str, new_text: &str) -> Vec<TextEdit> {
     if old_text.contains('\r') {
         // LSP positions cannot point into the middle of a "\r\n" pair and count a lone '\r' as a line break,
         // so the chunk-wise edits below cannot be expressed: replace the whole document instead
-        if old_text == new_text {
-            return vec![];
-        }
-        let lf_only = old_text.replace("\r\n", "\n").replace('\r', "\n");
-        return vec![TextEdit {
-            range: RangeKeeper::new().to_range(&lf_only),
-            new_text: new_text.to_string(),
-        }];
+        return replace_document(old_text, new_text);
     }
 
     let mut rk = RangeKeeper::new();
 
     let edits = diff(old_text, new_text);
+    if !is_partition(&edits, old_text, new_text) {
+        // For neighbouring multi-byte characters that share bytes the diff can come back with a character missing:
+        // never derive edits from chunks that do not add up to both texts
+        return replace_document(old_text, new_text);
+    }
 
     let mut idx = 0;
     let mut result = vec![];
